@@ -242,6 +242,9 @@ func runOneMsgOp(m *iso8583.Message, o *Sx) {
 func unrepresentableIDs(spec *Sx) map[int]string {
 	a := spec.Args()
 	B, auto := a[1].List[0].Int(), a[1].List[1].Bool()
+	if B == 0 {
+		B = 8 // Length 0 is the default block of 8 bytes
+	}
 	out := map[int]string{}
 	for _, ft := range a[2].List {
 		id := ft.List[0].Int()
